@@ -470,26 +470,36 @@ def region_decodes(F, fn, start, exits, err, cache, depth):
     return out
 
 
+def dispatch_fn(F):
+    return run_dispatch(F)[0]
+
+
 def run_dispatch(F):
     """Locate the opcode switch of Vm::_run: returns (fn, switch block, {variant: target block}, loop header)."""
-    fn = F.fn("vm::Vm::_run")
     variants = F.adt(INSTR)["variants"]
     by_discr = {v["discr"]: v["name"] for v in variants}
     best = None
-    for bi, b in enumerate(fn.blocks):
-        t = b["term"]
-        if t["k"] != "switch":
+    fn = None
+    # the interpreter loop is found by what it does - the largest switch on an Instruction discriminant in the vm module -
+    # not by its name (today Vm::_run)
+    for cand in F.fns:
+        if not cand.mir or cand.is_closure or not cand.path.startswith("vm::"):
             continue
-        loc = op_local(t["discr"])
-        if loc is None:
-            continue
-        # discriminant read of a place of type Instruction
-        for st in b["stmts"]:
-            if st["k"] == "assign" and st["place"]["l"] == loc and st["rv"]["k"] == "discr" and short(st["rv"]["adt"]) == INSTR:
-                if best is None or len(t["targets"]) > len(best[1]["targets"]):
-                    best = (bi, t)
+        for bi, b in enumerate(cand.blocks):
+            t = b["term"]
+            if t["k"] != "switch" or len(t["targets"]) < 20:
+                continue
+            loc = op_local(t["discr"])
+            if loc is None:
+                continue
+            # discriminant read of a place of type Instruction
+            for st in b["stmts"]:
+                if st["k"] == "assign" and st["place"]["l"] == loc and st["rv"]["k"] == "discr" and short(st["rv"]["adt"]) == INSTR:
+                    if best is None or len(t["targets"]) > len(best[1]["targets"]):
+                        best = (bi, t)
+                        fn = cand
     if best is None:
-        raise AnchorMissing("opcode switch in Vm::_run")
+        raise AnchorMissing("opcode switch (interpreter loop) in the vm module")
     bi, t = best
     targets = {}
     for val, tb in t["targets"]:
@@ -502,7 +512,7 @@ def run_dispatch(F):
     cfg = fn.cfg
     headers = [h for (_a, h) in cfg.back_edges() if cfg.dominates(h, bi)]
     if not headers:
-        raise AnchorMissing("dispatch loop header in Vm::_run")
+        raise AnchorMissing("dispatch loop header of the interpreter loop")
     header = max(headers, key=lambda h: len(cfg.dom[h]))
     return fn, bi, targets, header
 
